@@ -202,9 +202,8 @@ def run_property(pid, tier, seed, verbose=False, only=None):
     try:
         from . import propdefs
         fn = getattr(propdefs, 'run_' + pid, None)
-        if fn is None:
-            print('property %s is not claimed (see MANIFEST.not_applicable)' % pid)
-            return 2
-        return fn(rep, spec, pf, verbose=verbose, only=only)
+        if fn is not None:
+            return fn(rep, spec, pf, verbose=verbose, only=only)
+        return propdefs.run_generic(pid, rep, spec, pf, verbose=verbose, only=only)
     finally:
         pf.close()
